@@ -23,8 +23,8 @@ LOG = []
 
 
 def rec_count(y_true, y_pred):
-    LOG.append([int(v) for v in y_true])
-    return float(len(y_true))
+    LOG.append([int(v) for v in y_pred])          # the row ids travel in y_pred: y_true may hold missing labels
+    return float(len(y_pred))
 
 
 def const_metric(y_true, y_pred):
@@ -76,6 +76,8 @@ def _frame(job):
     key = lambda i: "|".join(feats[k][i] for k in range(ncf + nsf))
     skey = lambda i: "|".join(feats[k][i] for k in range(ncf))
     ids = list(range(n))
+    # partially unlabelled data (NaN in y_true) is legitimate input for a NaN-tolerant metric: the resamples still have n rows
+    yt = [float("nan") if (seed % 3 == 0 and i % 4 == 1) else float(i) for i in ids]
     sfa = pd.DataFrame({nm: feats[ncf + k] for k, nm in enumerate(names[ncf:])})
     cfa = pd.DataFrame({nm: feats[k] for k, nm in enumerate(names[:ncf])}) if ncf else None
     qs = [l / 8 for l in levels]
@@ -85,10 +87,10 @@ def _frame(job):
     rs = [0, 1, 2 ** 32 - 1, rnd.randint(0, 10 ** 6), rnd.randint(0, 10 ** 6)][seed % 5]      # edge seeds included (0 is a legitimate integer seed)
     try:
         del LOG[:]
-        mf = fm.MetricFrame(metrics=metrics, y_true=ids, y_pred=ids, sensitive_features=sfa, control_features=cfa, n_boot=nb, ci_quantiles=qs, random_state=rs)
+        mf = fm.MetricFrame(metrics=metrics, y_true=yt, y_pred=ids, sensitive_features=sfa, control_features=cfa, n_boot=nb, ci_quantiles=qs, random_state=rs)
         calls = [list(c) for c in LOG]
         del LOG[:]
-        mf2 = fm.MetricFrame(metrics=metrics, y_true=ids, y_pred=ids, sensitive_features=sfa, control_features=cfa, n_boot=nb, ci_quantiles=qs, random_state=rs)
+        mf2 = fm.MetricFrame(metrics=metrics, y_true=yt, y_pred=ids, sensitive_features=sfa, control_features=cfa, n_boot=nb, ci_quantiles=qs, random_state=rs)
     except Exception as e:
         return [({"kind": "exception", **sig}, f"MetricFrame(n_boot) raised {e!r}", detail)], None
     # ---- shapes, ordering, reproducibility for every *_ci
